@@ -199,8 +199,10 @@ func (ss *SpecSet) parse(src, file, pkgPath string, trusted bool) error {
 			}
 			if kw == "func" && params != nil {
 				// "func Iface.Method(recv, ...) (...)": the contract of an interface method - an assumption about
-				// every implementation that may be passed in (reported as an assumed contract)
+				// every implementation that may be passed in (reported as an assumed contract); names in it are
+				// resolved in the package that declares the contract (the method itself may be declared elsewhere)
 				c.Trusted = true
+				c.DeclPkg = pkgPath
 			}
 			if kw == "assume-func" {
 				// assumed contract of a function outside this package (fully qualified key), valid for
